@@ -246,7 +246,7 @@ fn hdbg(_ctx: &Ctx, h: Hdr, what: &str) -> Value {
     let mut s = String::new();
     macro_rules! d {
         ($e:expr) => {
-            write!(s, "{:?}", $e).unwrap()
+            { write!(s, "{:?}", $e).unwrap(); write!(s, "{:#?}", $e).unwrap() }
         };
     }
     match what {
